@@ -122,6 +122,19 @@ fn main() {
         m.set_fn_name(FunctionID(0), "renamed_f".into());
         show("S15", &m.encode());
     });
+    run("S8 iterator-level add_global, then add_imported_global", || {
+        use wirm::ir::module::module_globals::{Global, GlobalKind, LocalGlobal};
+        use wirm::ir::types::{InitExpr, InitInstr, Value};
+        use wirm::iterator::iterator_trait::IteratingInstrumenter;
+        let w = wat::parse_str(r#"(module (func nop))"#).unwrap();
+        let mut m = Module::parse(&w, false).unwrap();
+        let g = Global::new(GlobalKind::Local(LocalGlobal { global_id: GlobalID(0),
+            ty: wasmparser::GlobalType { content_type: wasmparser::ValType::I32, mutable: true, shared: false },
+            init_expr: InitExpr::new(vec![InitInstr::Value(Value::I32(5))]) }), None);
+        let gid = { let mut it = ModuleIterator::new(&mut m, &vec![]); it.add_global(g) };
+        let (igid, _) = m.add_imported_global("env".into(), "ig".into(), DataType::I64, false, false);
+        println!("iterator global id {:?}, imported global id {:?} (must differ)", gid, igid);
+    });
     run("S10 set_fn_name on added import", || {
         let w = wat::parse_str(r#"(module (func $a))"#).unwrap();
         let mut m = Module::parse(&w, false).unwrap();
